@@ -20,6 +20,11 @@ def build(verbose=False):
     lock = open(os.path.join(BUILD, 'replay.lock'), 'w'); fcntl.flock(lock, fcntl.LOCK_EX)
     try:
         stamp = os.path.join(BUILD, 'replay.stamp'); h = source_hash()
+        import hashlib, glob
+        hh = hashlib.sha256(h.encode())
+        for fp in sorted(glob.glob(os.path.join(VERIF, 'replay', 'src', '*.rs')) + [os.path.join(VERIF, 'replay', 'Cargo.toml')] + glob.glob(os.path.join(VERIF, 'vendor', 'lock_api', 'src', '*.rs'))):
+            hh.update(open(fp, 'rb').read())
+        h = hh.hexdigest()
         if os.path.exists(stamp) and open(stamp).read() == h and os.path.exists(BIN): return BIN
         rp = os.path.join(VERIF, 'replay')
         lf = os.path.join(rp, 'Cargo.lock')
